@@ -169,3 +169,21 @@ Fixpoint nodup_lhs (l : list lhs) : list lhs :=
   end.
 
 Definition assigned (prog : list ctree) : list lhs := nodup_lhs (map fst (slits prog)).
+
+(* ---------- several cycles: registers assigned by the program take spec_value each cycle ---------- *)
+Definition is_assigned (prog : list ctree) (l : lhs) : bool := existsb (lhs_eqb l) (map fst (slits prog)).
+
+Definition spec_next (d : defaults) (prog : list ctree) (E : env) (i : Z) : Z :=
+  if is_assigned prog (LW (TReg i))
+  then match spec_value E d prog (TReg i) with Some v => v | None => e_reg E i end
+  else e_reg E i.
+
+Definition spec_step (d : defaults) (prog : list ctree) (inp : (pid -> bool) * (Z -> Z)) (regs : list Z) : list Z :=
+  map (fun k => spec_next d prog (reg_env (fst inp) (snd inp) regs) (Z.of_nat k)) (seq 0 (length regs)).
+
+Fixpoint spec_run (d : defaults) (prog : list ctree) (inputs : list ((pid -> bool) * (Z -> Z))) (regs : list Z)
+  : list (list Z) :=
+  match inputs with
+  | [] => []
+  | inp :: rest => spec_step d prog inp regs :: spec_run d prog rest (spec_step d prog inp regs)
+  end.
